@@ -34,7 +34,7 @@ func check(c Case) verdict {
 }
 
 func checkOn(s *server, c *Case) verdict {
-	res, herr := execute(s, c)
+	res, herr := execute(s, nil, c)
 	if herr != nil {
 		return verdict{class: "harness-error", what: herr.Error(), outcome: "harness-error"}
 	}
